@@ -162,8 +162,8 @@ def rule_witnesses(ctx, rep, prefix="c13_"):
 def run(ctx, rep):
     rule_auto(ctx, rep)
     rule_witnesses(ctx, rep)
-    rep.floor("W-REJECT", 120, "expected rejections across the negative witnesses")
-    rep.floor("W-TWIN", 15, "compiling twins")
+    rep.floor("W-REJECT", 128, "expected rejections across the negative witnesses")
+    rep.floor("W-TWIN", 20, "compiling twins")
     rep.floor("W-ACCEPT", 1, "generic positive witness")
 
 
